@@ -11,7 +11,7 @@ from . import model as M
 from .model import Obj
 
 class Unsupported(Exception): pass
-_BI_IDS = {id(getattr(builtins, n)): n for n in ('isinstance', 'issubclass', 'len', 'iter', 'next', 'getattr', 'bool', 'type', 'callable', 'tuple', 'all', 'any', 'list', 'set', 'sorted', 'sum', 'min', 'max', 'frozenset')}
+_BI_IDS = {id(getattr(builtins, n)): n for n in ('dict', 'hash', 'super', 'isinstance', 'issubclass', 'len', 'iter', 'next', 'getattr', 'bool', 'type', 'callable', 'tuple', 'all', 'any', 'list', 'set', 'sorted', 'sum', 'min', 'max', 'frozenset')}
 
 # ---------------------------------------------------------------- values
 class V: pass
@@ -60,32 +60,47 @@ class Obl:
 
 @dataclass(frozen=True)
 class St:
-    env: tuple = ()              # persistent assoc: tuple of (name, V)
+    env: tuple = ()              # persistent assoc: tuple of (name, V)   (locals of the function being executed)
     pc: tuple = ()
     cost: object = 0             # python int or z3 Int: number of container-item reads
     effects: tuple = ()          # (op, target-term-or-None, detail)
     events: tuple = ()           # ghost events (calls of abstract callees, checks, yields)
+    heap: tuple = ()             # persistent assoc: (key, value) - survives calls (dict contents, field arrays, ghost tables)
     def get(self, n):
         for k, v in reversed(self.env):
             if k == n: return v
         return None
-    def set(self, n, v):
-        return St(tuple((k, w) for k, w in self.env if k != n) + ((n, v),), self.pc, self.cost, self.effects, self.events)
+    def _r(self, **kw):
+        d = dict(env=self.env, pc=self.pc, cost=self.cost, effects=self.effects, events=self.events, heap=self.heap); d.update(kw)
+        return St(**d)
+    def set(self, n, v): return self._r(env=tuple((k, w) for k, w in self.env if k != n) + ((n, v),))
     def assume(self, c):
         if z3.is_true(c): return self
-        return St(self.env, self.pc + (c,), self.cost, self.effects, self.events)
-    def read(self, n=1):
-        return St(self.env, self.pc, self.cost + n, self.effects, self.events)
-    def eff(self, op, tgt=None, detail=None):
-        return St(self.env, self.pc, self.cost, self.effects + ((op, tgt, detail),), self.events)
-    def ev(self, *e):
-        return St(self.env, self.pc, self.cost, self.effects, self.events + (e,))
+        return self._r(pc=self.pc + (c,))
+    def read(self, n=1): return self._r(cost=self.cost + n)
+    def eff(self, op, tgt=None, detail=None): return self._r(effects=self.effects + ((op, tgt, detail),))
+    def ev(self, *e): return self._r(events=self.events + (e,))
+    def hget(self, k, default=None):
+        for kk, v in reversed(self.heap):
+            if kk == k: return v
+        return default
+    def hset(self, k, v): return self._r(heap=tuple((kk, w) for kk, w in self.heap if kk != k) + ((k, v),))
+    def with_env(self, env): return self._r(env=env)
 
 UNBOUND = VPy(type('Unbound', (), {'__repr__': lambda s: '<unbound>'})())
 POISON = VPy(type('Poison', (), {'__repr__': lambda s: '<loop-carried>'})())
 @dataclass(frozen=True)
 class VKeyDiff(V):       # kwargs.keys() - <constant set of names>
     src: object; excluded: tuple
+@dataclass(frozen=True)
+class VDictRef(V):       # a dict object created in verified text with constant keys; contents live in the state heap under ('dict', rid)
+    rid: int
+@dataclass(frozen=True)
+class VSuper(V):         # super() inside a method: only super().__new__(cls) (object allocation) is modelled
+    pass
+@dataclass(frozen=True)
+class VGhostMap(V):      # a module-level table under contract: lookups identify keys modulo ==/hash (model.eqc)
+    name: str
 @dataclass
 class SymIter:           # a symbolic iteration domain: all values elem(var) with dom(var); ordered => var is an Int index
     var: object; dom: object; elem: object; ordered: bool; lo: object = None; st: object = None
@@ -96,7 +111,7 @@ class Exec:
         self.uni = uni; self.scope = dict(scope or {}); self.obls = []; self.name = name
         self.prune = prune; self.call_model = call_model or {}; self._solver = None; self.npaths = 0
         self.inline_repo_funcs = inline_repo_funcs; self.assumptions = set(); self.dropped = set()
-        self._axioms = None; self.nprune = 0; self.raised = []
+        self._axioms = None; self.nprune = 0; self.raised = []; self.fields_mode = False; self.method_names = {'values', 'items', 'keys', 'get'}
     # ------------------------------------------------------------ helpers
     def obl(self, st, kind, goal, where=''):
         self.obls.append(Obl(f'{self.name}.{kind}.{len(self.obls)}', kind, st.pc, goal, where))
@@ -115,7 +130,11 @@ class Exec:
         if isinstance(v, VInt): return M.box_int(v.t)
         if isinstance(v, VBool): return M.box_bool(v.t)
         if isinstance(v, VTup):
-            t = M.fresh('tup'); return t
+            n = len(v.items)
+            if n == 0: return self.uni.const(())
+            return z3.Function(f'tuple{n}', *([Obj] * n), Obj)(*[self.obj(i) for i in v.items])
+        if isinstance(v, VDictRef): return z3.Const(f'dictref_{v.rid}', Obj)
+        if isinstance(v, VExc): return z3.Const(f'exc_{v.cls.__name__}', Obj)
         raise Unsupported(f'object coercion of {type(v).__name__}')
     def truth(self, v):
         if isinstance(v, VBool): return v.t
@@ -250,6 +269,12 @@ class Exec:
         raise Unsupported('comparison ' + type(op).__name__)
     def contains(self, s, op, l, r):
         neg = isinstance(op, ast.NotIn)
+        if isinstance(r, VGhostMap):
+            present, _ = self.ghost_lookup(s, r, l)
+            return [(s, VBool(z3.Not(present) if neg else present))]
+        if isinstance(r, VDictRef) and isinstance(l, VPy):
+            c = z3.BoolVal(l.o in dict(s.hget(('dict', r.rid), ())))
+            return [(s, VBool(z3.Not(c) if neg else c))]
         if isinstance(r, VPy) and isinstance(r.o, (frozenset, set, tuple, dict, str)) and isinstance(l, VPy):
             c = z3.BoolVal(l.o in r.o)
         elif isinstance(r, VPy) and isinstance(r.o, (frozenset, set, tuple, dict)):
@@ -262,7 +287,7 @@ class Exec:
             s = s.eff('contains', rt)
             c = M.mem(rt, self.obj(l))
             setlike = z3.Or(M.inst(rt, self.uni.const(cabc.Set)), M.inst(rt, self.uni.const(cabc.Mapping)))
-            s = St(s.env, s.pc, s.cost + z3.If(setlike, 0, M.len_(rt)), s.effects, s.events)
+            s = s._r(cost=s.cost + z3.If(setlike, 0, M.len_(rt)))
         return [(s, VBool(z3.Not(c) if neg else c))]
     def e_BinOp(self, n, st):
         outs = []
@@ -299,6 +324,16 @@ class Exec:
             outs += self.subscript(s, b, i, ast.unparse(n)[:80])
         return outs
     def subscript(self, s, b, i, where=''):
+        if isinstance(b, VDictRef):
+            if not (isinstance(i, VPy) and isinstance(i.o, str)): raise Unsupported('non-constant key into a local dict: ' + where)
+            cur = dict(s.hget(('dict', b.rid), ()))
+            if i.o not in cur:
+                self.obl(s, 'defined.key', z3.BoolVal(False), where); return []
+            return [(s, cur[i.o])]
+        if isinstance(b, VGhostMap):
+            present, val = self.ghost_lookup(s, b, i)
+            self.obl(s, 'defined.key', present, where); s = s.assume(present)
+            return [(s.ev('ghost_get', b.name, self.keycls(i)), VObj(val))]
         if isinstance(b, VTup) and isinstance(i, (VInt,)) and z3.is_int_value(z3.simplify(i.t)):
             k = z3.simplify(i.t).as_long()
             if not (-len(b.items) <= k < len(b.items)):
@@ -335,6 +370,10 @@ class Exec:
             try: v = getattr(b.o, name)
             except AttributeError: return [(s, VBound(b, name))]
             if not callable(v) or isinstance(v, (types.FunctionType, types.MethodType, type)): return [(s, self.wrap(v))]
+        if isinstance(b, VObj) and self.fields_mode and name not in self.method_names:
+            last = s.hget(('fieldlast', name))
+            if last is not None and last[0].eq(b.t): return [(s, last[1])]      # the structured value just stored into this very object
+            return [(s, VObj(z3.Select(self.field(s, name), b.t)))]
         return [(s, VBound(b, name))]
     def e_Lambda(self, n, st):
         return [(st, VClosure(n, st.env, None))]
@@ -397,7 +436,7 @@ class Exec:
         tree = self._src_cache.get(fn)
         if tree is None:
             tree = self._src_cache[fn] = ast.parse(open(fn).read())
-        cands = [x for x in ast.walk(tree) if isinstance(x, (ast.FunctionDef, ast.Lambda, ast.AsyncFunctionDef)) and x.lineno == code.co_firstlineno
+        cands = [x for x in ast.walk(tree) if isinstance(x, (ast.FunctionDef, ast.Lambda, ast.AsyncFunctionDef)) and min([d.lineno for d in getattr(x, 'decorator_list', [])] + [x.lineno]) == code.co_firstlineno
                  and (isinstance(x, ast.Lambda)) == (code.co_name == '<lambda>')]
         if isinstance(cands[0] if cands else None, ast.FunctionDef): cands = [x for x in cands if x.name == code.co_name]
         if len(cands) != 1: raise Unsupported(f'cannot locate source of {o!r}')
@@ -411,7 +450,7 @@ class Exec:
                 except ValueError: pass
         sub = Exec(self.uni, scope, prune=self.prune, call_model=self.call_model, name=self.name + '>' + o.__name__,
                    inline_repo_funcs=self.inline_repo_funcs)
-        sub.obls = self.obls; sub.assumptions = self.assumptions; sub.dropped = self.dropped; sub.raised = self.raised
+        sub.obls = self.obls; sub.assumptions = self.assumptions; sub.dropped = self.dropped; sub.raised = self.raised; sub.fields_mode = self.fields_mode; sub.method_names = self.method_names
         return sub.run_function(node, s, args, kwargs, o)
     def bind_params(self, node, s, args, kwargs, defaults_from=None):
         a = node.args; env = {}
@@ -439,14 +478,14 @@ class Exec:
         return env
     def run_function(self, node, s, args, kwargs, fobj=None):
         env = self.bind_params(node, s, args, kwargs, fobj)
-        inner = St(tuple(env.items()), s.pc, s.cost, s.effects, s.events)
+        inner = s.with_env(tuple(env.items()))
         outs = []
         if isinstance(node, ast.Lambda):
             for s2, v in self.eval(node.body, inner):
-                outs.append((St(s.env, s2.pc, s2.cost, s2.effects, s2.events), v))
+                outs.append((s2.with_env(s.env), v))
             return outs
         for kind, s2, v in self.exec_block(node.body, inner):
-            back = St(s.env, s2.pc, s2.cost, s2.effects, s2.events)
+            back = s2.with_env(s.env)
             if kind == 'next': outs.append((back, VPy(None)))
             elif kind == 'return': outs.append((back, v))
             elif kind == 'raise': self.raised.append((back, v))
@@ -455,11 +494,20 @@ class Exec:
     def call_closure(self, s, f, args, kwargs, where):
         if isinstance(f.node, ast.Lambda):
             env = self.bind_params(f.node, s, args, kwargs)
-            inner = St(f.env + tuple(env.items()), s.pc, s.cost, s.effects, s.events)
-            return [(St(s.env, s2.pc, s2.cost, s2.effects, s2.events), v) for s2, v in self.eval(f.node.body, inner)]
+            inner = s.with_env(f.env + tuple(env.items()))
+            return [(s2.with_env(s.env), v) for s2, v in self.eval(f.node.body, inner)]
         raise Unsupported('closure call ' + where)
     def call_method(self, s, f, args, kwargs, where):
         b, name = f.self_, f.name
+        if isinstance(b, VSuper) and name == '__new__' and len(args) == 1:
+            t = M.fresh('new'); cs = self.classes_of(args[0])
+            s = s.assume(M.inst(t, cs[0])).ev('alloc', t)
+            return [(s, VObj(t))]
+        if isinstance(b, VGhostMap) and name == 'get' and 1 <= len(args) <= 2:
+            present, val = self.ghost_lookup(s, b, args[0]); outs = []
+            for s2, p in self.fork(s, present):
+                outs.append((s2.ev('ghost_get', b.name, self.keycls(args[0])), VObj(val)) if p else (s2, args[1] if len(args) == 2 else VPy(None)))
+            return outs
         if name in ('values', 'items', 'keys') and not args:
             bt = self.obj(b); ok = M.inst(bt, self.uni.const(cabc.Mapping))
             self.obl(s, 'defined.attr', ok, where); s = s.assume(ok)
@@ -479,8 +527,22 @@ class Exec:
         raise Unsupported(f'method call .{name}(): {where}')
 
     # builtin encodings -------------------------------------------------
+    def b_super(self, s, args, kw, where):
+        return [(s, VSuper())]
+    def b_dict(self, s, args, kw, where):
+        if args: raise Unsupported('dict(positional): ' + where)
+        s2, ref = self.new_dict(s, list(dict(kw).items()))
+        return [(s2, ref)]
+    def b_hash(self, s, args, kw, where):
+        kc = self.keycls(args[0])
+        H = z3.Function(f'hash{len(kc)}', *([Obj] * len(kc)), Obj)
+        return [(s, VObj(H(*kc)))]
     def b_isinstance(self, s, args, kw, where):
-        o, c = args; ot = self.obj(o)
+        o, c = args
+        if isinstance(o, VDictRef) and isinstance(c, VPy):
+            try: return [(s, VBool(z3.BoolVal(issubclass(dict, c.o))))]
+            except TypeError: pass
+        ot = self.obj(o)
         if isinstance(o, VPy) and isinstance(c, VPy):
             try: return [(s, VBool(z3.BoolVal(isinstance(o.o, c.o))))]
             except TypeError: pass
@@ -494,6 +556,7 @@ class Exec:
         return [(s.eff('issubclass', ot), VBool(z3.Or(*[M.subc(ot, k) for k in cs]) if len(cs) != 1 else M.subc(ot, cs[0])))]
     def b_len(self, s, args, kw, where):
         (o,) = args
+        if isinstance(o, VDictRef): return [(s, VInt(z3.IntVal(len(s.hget(('dict', o.rid), ())))))]
         if isinstance(o, VTup): return [(s, VInt(z3.IntVal(len(o.items))))]
         if isinstance(o, VPy) and isinstance(o.o, (tuple, list, str, dict, set, frozenset)): return [(s, VInt(z3.IntVal(len(o.o))))]
         ot = self.obj(o); ok = M.inst(ot, self.uni.const(cabc.Sized))
@@ -539,17 +602,17 @@ class Exec:
         a = args[0] if args else None
         if isinstance(a, VClosure) and isinstance(a.node, ast.GeneratorExp):
             g = a.node.generators[0]
-            inner = St(a.env, s.pc, s.cost, s.effects, s.events)
+            inner = s.with_env(a.env)
             res = self.eval(g.iter, inner)
             if len(res) != 1: raise Unsupported('generator source forks')
             src = res[0][1]
         else: src = a
         if isinstance(src, (VObj,)):
             t = src.t
-            s = St(s.env, s.pc, s.cost + M.len_(t), s.effects + (('iterate_all', t, where),), s.events)
+            s = s._r(cost=s.cost + M.len_(t), effects=s.effects + (('iterate_all', t, where),))
             return [(s, VObj(M.fresh('linres')))] if True else []
         raise Unsupported('linear builtin over ' + type(src).__name__ + ': ' + where)
-    BUILTINS = {'isinstance': b_isinstance, 'issubclass': b_issubclass, 'len': b_len, 'iter': b_iter, 'next': b_next,
+    BUILTINS = {'super': b_super, 'dict': b_dict, 'hash': b_hash, 'isinstance': b_isinstance, 'issubclass': b_issubclass, 'len': b_len, 'iter': b_iter, 'next': b_next,
                 'getattr': b_getattr, 'bool': b_bool, 'type': b_type, 'callable': b_callable,
                 'all': b_linear, 'any': b_linear, 'tuple': b_linear, 'list': b_linear, 'set': b_linear, 'sorted': b_linear,
                 'sum': b_linear, 'min': b_linear, 'max': b_linear, 'frozenset': b_linear}
@@ -574,7 +637,7 @@ class Exec:
         outs = m(n, st)
         new = self.raised[mark:]; del self.raised[mark:]
         # exceptions raised inside inlined callees surface at the enclosing statement of the caller
-        return outs + [('raise', St(st.env, s.pc, s.cost, s.effects, s.events), v) for s, v in new]
+        return outs + [('raise', s.with_env(st.env), v) for s, v in new]
     def s_Expr(self, n, st):
         if isinstance(n.value, ast.Constant): return [('next', st, None)]   # docstring
         return [('next', s, None) for s, _ in self.eval(n.value, st)]
@@ -638,7 +701,69 @@ class Exec:
         if isinstance(tgt, ast.Tuple) and isinstance(v, VTup) and len(tgt.elts) == len(v.items):
             for t, x in zip(tgt.elts, v.items): s = self.assign(s, t, x)
             return s
+        if isinstance(tgt, ast.Subscript):
+            r = self.eval_list([tgt.value, tgt.slice], s)
+            if len(r) != 1: raise Unsupported('subscript target forks')
+            s, (b, k) = r[0]
+            return self.setitem(s, b, k, v, ast.unparse(tgt)[:60])
+        if isinstance(tgt, ast.Attribute):
+            r = self.eval(tgt.value, s)
+            if len(r) != 1: raise Unsupported('attribute target forks')
+            s, b = r[0]
+            return self.setattr_(s, b, tgt.attr, v)
         raise Unsupported('assignment target ' + ast.unparse(tgt)[:60])
+    # ---- heap: local dicts, field arrays, ghost tables
+    _rid = [0]
+    def new_dict(self, s, items):
+        self._rid[0] += 1; rid = self._rid[0]
+        return s.hset(('dict', rid), tuple(items)), VDictRef(rid)
+    def setitem(self, s, b, k, v, where=''):
+        if isinstance(b, VDictRef):
+            if not (isinstance(k, VPy) and isinstance(k.o, str)): raise Unsupported('non-constant key into a local dict: ' + where)
+            cur = dict(s.hget(('dict', b.rid), ())); cur[k.o] = v
+            return s.hset(('dict', b.rid), tuple(cur.items()))
+        if isinstance(b, VGhostMap):
+            stores = s.hget(('ghost', b.name), ())
+            return s.hset(('ghost', b.name), stores + ((self.keycls(k), v),)).ev('ghost_store', b.name, self.keycls(k), v, k)
+        raise Unsupported('item assignment on ' + type(b).__name__ + ': ' + where)
+    def keycls(self, k):
+        if isinstance(k, VTup): return tuple(M.eqc(self.obj(c)) for c in k.items)
+        return (M.eqc(self.obj(k)),)
+    def ghost_base(self, name, arity):
+        has = z3.Function(f'{name}_has{arity}', *([Obj] * arity), z3.BoolSort()); get = z3.Function(f'{name}_get{arity}', *([Obj] * arity), Obj)
+        return has, get
+    def ghost_lookup(self, s, g, k):
+        """-> (present: z3 Bool, value: z3 Obj term)"""
+        kc = self.keycls(k); has, get = self.ghost_base(g.name, len(kc))
+        present = has(*kc); val = get(*kc)
+        for skc, sv in s.hget(('ghost', g.name), ()):
+            if len(skc) != len(kc): continue
+            same = z3.And(*[a == b for a, b in zip(skc, kc)])
+            present = z3.Or(same, present); val = z3.If(same, self.obj(sv), val)
+        return present, val
+    def field(self, s, name):
+        arr = s.hget(('field', name))
+        if arr is None: arr = z3.Const(f'H_{name}', z3.ArraySort(Obj, Obj))
+        return arr
+    def setattr_(self, s, b, name, v):
+        if isinstance(b, VObj):
+            return s.hset(('field', name), z3.Store(self.field(s, name), b.t, self.obj(v))).hset(('fieldlast', name), (b.t, v)).eff('setattr', b.t, name)
+        raise Unsupported(f'attribute assignment on {type(b).__name__}.{name}')
+    def s_With(self, n, st):
+        # locks, catch_warnings(...), warnings_ignored(...): transparent (their protocol is trusted); `as` names are bound to an opaque object
+        cur = [st]
+        for item in n.items:
+            nxt = []
+            for s in cur:
+                try: rs = self.eval(item.context_expr, s)
+                except Unsupported: rs = [(s, VObj(M.fresh('ctx')))]
+                for s2, v in rs:
+                    nxt.append(self.assign(s2, item.optional_vars, VObj(M.fresh('ctxval'))) if item.optional_vars is not None else s2)
+            cur = nxt
+        self.dropped.add('with-statement context managers (locks / warning filters): transparent')
+        outs = []
+        for s in cur: outs += self.exec_block(n.body, s)
+        return outs
     def s_If(self, n, st):
         outs = []
         for s, c in self.eval(n.test, st):
@@ -668,7 +793,7 @@ class Exec:
         if isinstance(v, VClosure) and isinstance(v.node, ast.GeneratorExp):
             g = v.node
             if len(g.generators) != 1 or g.generators[0].ifs or not isinstance(g.generators[0].target, ast.Name): raise Unsupported('generator expression form')
-            inner_env = St(v.env, s.pc, s.cost, s.effects, s.events)
+            inner_env = s.with_env(v.env)
             r = self.eval(g.generators[0].iter, inner_env)
             if len(r) != 1: raise Unsupported('generator source forks')
             it = self.symiter(r[0][0], r[0][1])
@@ -676,11 +801,11 @@ class Exec:
             r2 = self.eval(g.elt, s2)
             if len(r2) != 1: raise Unsupported('generator element forks')
             s3, ev = r2[0]
-            return SymIter(it.var, it.dom, ev, it.ordered, it.lo, St(s.env, tuple(c for c in s3.pc if not c.eq(it.dom)), s3.cost, s3.effects, s3.events))
+            return SymIter(it.var, it.dom, ev, it.ordered, it.lo, s3._r(env=s.env, pc=tuple(c for c in s3.pc if not c.eq(it.dom))))
         if isinstance(v, VObj):
             bt = v.t; k = M.fresh('k')
             ok = M.inst(bt, self.uni.const(cabc.Iterable)); self.obl(s, 'defined.iter', ok, 'for loop over an iterable'); s = s.assume(ok)
-            return SymIter(k, M.mem(bt, k), VObj(k), False, None, St(s.env, s.pc, s.cost + M.len_(bt), s.effects + (('iterate_all', bt, 'for'),), s.events))
+            return SymIter(k, M.mem(bt, k), VObj(k), False, None, s._r(cost=s.cost + M.len_(bt), effects=s.effects + (('iterate_all', bt, 'for'),)))
         raise Unsupported(f'for loop over {type(v).__name__}')
     def s_For(self, n, st):
         if n.orelse: raise Unsupported('for/else')
@@ -688,6 +813,20 @@ class Exec:
         assigned = {x.id for b in n.body for x in ast.walk(b) if isinstance(x, ast.Name) and isinstance(x.ctx, ast.Store)}
         tnames = {x.id for x in ast.walk(n.target) if isinstance(x, ast.Name)}
         for s0, itv in self.eval(n.iter, st):
+            if (isinstance(itv, VPy) and isinstance(itv.o, (tuple, list, frozenset))) or isinstance(itv, VTup):
+                # a loop over a constant of the real module: unrolled from the real constant
+                elems = [self.wrap(e) for e in itv.o] if isinstance(itv, VPy) else list(itv.items)
+                cur = [s0]
+                for e in elems:
+                    nxt = []
+                    for sc in cur:
+                        for kind, s2, v in self.exec_block(n.body, self.assign(sc, n.target, e)):
+                            if kind in ('next', 'continue'): nxt.append(s2)
+                            elif kind == 'break': outs.append(('next', s2, None))
+                            else: outs.append((kind, s2, v))
+                    cur = nxt
+                outs += [('next', sc, None) for sc in cur]
+                continue
             it = self.symiter(s0, itv); s = it.st
             base = len(s.pc)
             sb = s
